@@ -1000,8 +1000,54 @@ func (g *c05Gen_) largeStream(tier string) {
 	g.largeCase(pick(r, rc), 4097, "del", r.intn(2))
 }
 
+// keySizeStream: the KEY-SIZE boundary of ids.  bbolt accepts any bucket name (an entity id) but
+// refuses a Put key longer than MaxKeySize = 32768, and a link / count key is the type byte plus the
+// peer's id: an entity whose id has n bytes around that limit on one side, a short id on the other,
+// every link operation in a transaction of its own (a failing one is rolled back), then the delete
+// of either end.  SetLinkCount with a non-zero count has cases of its own (before fix 2a864e9 it
+// dropped bbolt's error and stored the count on one side only).
+func (g *c05Gen_) keySizeStream(tier string) {
+	r := g.r
+	sizes := []int{32767, 32768}
+	if tier == "thorough" {
+		sizes = []int{32766, 32767, 32768, 32769}
+	}
+	for _, n := range sizes {
+		long := toWire(strings.Repeat(string(rune('b'+r.intn(20))), n))
+		a, c := toWire("a"), toWire("c")
+		for _, longSide := range []int{0, 1} {
+			L, S := "AB"[longSide:longSide+1], "AB"[1-longSide:2-longSide]
+			// quick tier: the long id is not a pool id (it would be printed a hundred times per case); its
+			// buckets are compared through the dump and through the short entities' views
+			lp := long
+			if tier != "thorough" {
+				lp = toWire("z")
+			}
+			pools := [2]string{a + "," + c, lp}
+			if longSide == 0 {
+				pools = [2]string{lp, a + "," + c}
+			}
+			create := "c:" + S + ":" + a + ";c:" + S + ":" + c + ";c:" + L + ":" + long
+			rcTx := []string{create,
+				"inc:0:" + S + ":" + a + ":" + long, "inc:0:" + L + ":" + long + ":" + a, "inc:0:" + S + ":" + c + ":" + long + ";dec:0:" + S + ":" + c + ":" + long,
+				"dec:0:" + L + ":" + long + ":" + a, "set:0:" + S + ":" + a + ":" + long + ":0;gc:0:" + S + ":" + a + ":" + long,
+				"inc:0:" + L + ":" + long + ":" + c, "d:" + L + ":" + long, "c:" + L + ":" + long + ";inc:0:" + L + ":" + long + ":" + a}
+			plTx := []string{create,
+				"al:0:" + S + ":" + a + ":" + long, "al:0:" + L + ":" + long + ":" + c + "," + a, "a1:0:" + S + ":" + c + ":" + long, "a1:0:" + L + ":" + long + ":" + c,
+				"sl:0:" + S + ":" + a + ":" + long + "," + long, "sl:0:" + L + ":" + long + ":" + a, "r1:0:" + S + ":" + a + ":" + long + ";rl:0:" + L + ":" + long + ":" + c,
+				"il:0:" + S + ":" + a + ":" + long + ";gl:0:" + L + ":" + long, "cl:" + S + ":" + toWire("d") + ":0:" + long, "d:" + L + ":" + long, "cl:" + L + ":" + long + ":0:" + a + "," + c}
+			fmt.Fprintf(g.out, "G %s %s %s %s\n", pick(r, []string{"r00", "r00.12"}), pools[0], pools[1], strings.Join(rcTx, " "))
+			fmt.Fprintf(g.out, "G %s %s %s %s\n", pick(r, []string{"p00", "p00.21"}), pools[0], pools[1], strings.Join(plTx, " "))
+			if n >= 32768 || tier == "thorough" {
+				fmt.Fprintf(g.out, "G r00 %s %s %s set:0:%s:%s:%s:3 set:0:%s:%s:%s:2\n", pools[0], pools[1], create, S, a, long, L, long, c)
+			}
+		}
+	}
+}
+
 func c05SchemaGen(g *c05Gen_, tier string) {
 	r := g.r
+	g.keySizeStream(tier)
 	g.largeStream(tier)
 	if tier == "thorough" {
 		// bounded-exhaustive: every schema of at most 3 collections (454), deleted through each store
